@@ -68,6 +68,46 @@ def _doc_digest(text):
   return "; ".join(out)
 
 
+def long_stream(count, kind, pad):
+  """`count` pop-on captions for channel 1, each followed by a caption addressed to channel 2 (kind "ch2"), by field-2 codes
+  with text (kind "f2"), or by a channel-2 caption on a line whose time code runs BACKWARDS (kind "back").  With pad=True the
+  words that are not channel-1 data are replaced by null padding: the reader must return the same document either way."""
+  lines = []
+  f = 30
+  for k in range(count):
+    a, b = 0x41 + k % 26, 0x61 + (k // 26) % 26
+    lines.append((f, "9420 9420 9470 9470 %s 942f 942f" % _w(a * 256 + b)))
+    f += 12
+    if kind == "ch2":
+      other = ["1c20", "1c20", "1c70", "1c70", _w(0x5a5a), _w(0x5a5a), "1c2f", "1c2f"]
+    elif kind == "f2":
+      other = ["1520", "1520", _w(0x5a5a), "152f", "152f", "152c"]
+    else:
+      other = ["1c20", "1c20", "1c70", "1c70"]
+    words = [_w(0)] * len(other) if pad else [(_w(int(w, 16)) if w[:2] in ("1c", "15") else w) for w in other]
+    lines.append((f, " ".join(words)))
+    f += 12
+    if kind == "back":
+      # channel-2 text on a line that is stamped EARLIER than the line before it
+      lines.append((f - 20, " ".join([_w(0)] * 2 if pad else [_w(0x5a5a), _w(0x5a5a)])))
+      lines.append((f, "9420 9420"))
+      f += 6
+    lines.append((f, "942c 942c"))
+    f += 10
+  return "Scenarist_SCC V1.0\n\n" + "".join("00:%02d:%02d:%02d\t%s\n\n" % (t // 1800, (t // 30) % 60, t % 30, ws) for t, ws in lines)
+
+
+def long_records():
+  out = []
+  for kind in ("ch2", "f2", "back"):
+    for count in (3, 40, 101, 130):
+      d = _doc_digest(long_stream(count, kind, False))
+      ref = _doc_digest(long_stream(count, kind, True))
+      out.append({"kind": "ignlong", "v": count, "how": kind, "same": 1 if d == ref else 0, "n": ref.count(";") + 1 if ref else 0,
+                  "doc": d[:200], "ref": ref[:200]})
+  return out
+
+
 def ignored_records():
   out = []
   for hi in range(0x10, 0x20):
@@ -248,7 +288,11 @@ def run(ctx):
     raise T.MachineryError("the reference stream of the channel experiment is not read as two captions, or no word at all "
                            "changes the document: the experiment observes nothing")
   recs.extend(ign)
-  ctx.evaluations += len(ign)
+  lng = long_records()
+  if any(r["ref"].startswith("raised") or r["n"] < r["v"] for r in lng):
+    raise T.MachineryError("the padded reference of a long channel stream is not read as one caption per channel-1 caption: " + str(lng[0]))
+  recs.extend(lng)
+  ctx.evaluations += len(ign) + len(lng)
   ctx.count("words_embedded_in_a_channel_1_stream", len(ign))
 
   text = "\n".join(json.dumps(x, separators=(",", ":")) for x in recs) + "\n"
@@ -261,7 +305,11 @@ def run(ctx):
   ctx.traces = len(recs)
   for _, ri, x, clause in res.values("FAIL"):
     rec = recs[ri - 1]
-    if rec["kind"] == "ign":
+    if rec["kind"] == "ignlong":
+      ctx.violation(clause, {"captions_per_channel": rec["v"], "other_data": rec["how"], "scc": long_stream(rec["v"], rec["how"], False)[:1500],
+                             "document": rec["doc"], "document_with_padding": rec["ref"]}, {"count": rec["v"], "how": rec["how"]},
+                    "%d captions interleaved with %s data: the reader decodes something else than channel 1" % (rec["v"], rec["how"]))
+    elif rec["kind"] == "ign":
       ctx.violation(clause, {"word": "0x%04X" % rec["v"], "scc": rec_scc(rec["v"], rec["dbl"]), "document_with_word": rec["doc"],
                              "document_with_padding": rec["ref"]}, {"word": rec["v"], "doubled": rec["dbl"]},
                     "word 0x%04X between two channel-1 captions changes what the reader decodes" % rec["v"])
